@@ -21,6 +21,7 @@ func String(n int) string
 func Choose(n int) int
 func MaxLen(n int)
 func Unwind(n int)
+func MaxDepth(n int) // a call depth beyond n is reported as unbounded recursion
 func MaxPreempt(n int)
 func AllocCap(n int)
 func Assume(c bool)
